@@ -78,3 +78,88 @@ def refs():
     Kxx = M.atom("Kd", 2, True) + M.atom("Sig", 2, True)
     hld = M.atom(f"hld({M.atom('L', 2)})", 0)
     return dict(y=y, m=m, Linv=Linv, LinvT=LinvT, Kinv=Kinv, alpha=alpha, Kqx=Kqx, Kqq=Kqq, Kxx=Kxx, hld=hld)
+
+
+# ---------------------------------------------------------------------------- hyper-parameter layout (C11, C17)
+def mean_first_layout(prog, cname, bounds_fn_name, bounds_key):
+    """Problems with the layout of the hyper-parameter vector of a GP class: slices, labels and bounds must all put the
+    mean function's parameters first and the covariance function's after them.  Decided on resolved terms / list layouts."""
+    from ..term import Resolver, pmatch, anf_of
+    from ..seq import Layouts, UNKNOWN, show
+    from ..anf import R, Unsupported
+    ci, init = prog.method(cname, "__init__")
+    rz = Resolver(init, prog, ci.module, ci, inline_self=False)
+    L = Layouts(init, prog, ci.module, ci)
+    why = []
+    attr = {}
+    for st in ast.walk(init):
+        if isinstance(st, ast.Assign) and len(st.targets) == 1 and isinstance(st.targets[0], ast.Attribute) and U(st.targets[0].value) == "self":
+            attr.setdefault(st.targets[0].attr, []).append(rz.term(st.value, st))
+
+    def one(name):
+        return attr[name][0] if len(attr.get(name, [])) == 1 else None
+    ms, cs, nh = one("mean_slice"), one("cov_slice"), one("n_hyperpars")
+    if ms is None or pmatch(ms, "slice(0, self.mean.n_params)") is None:
+        why.append(f"mean_slice is `{U(ms) if ms is not None else None}`, not slice(0, mean.n_params)")
+    okc = cs is not None and (pmatch(cs, "slice(self.mean.n_params, self.n_hyperpars)") is not None
+                              or pmatch(cs, "slice(self.mean.n_params, self.mean.n_params + self.cov.n_params)") is not None)
+    if not okc:
+        why.append(f"cov_slice is `{U(cs) if cs is not None else None}`, not slice(mean.n_params, n_hyperpars)")
+    # n_hyperpars = number of mean + covariance parameters (directly, or as the length of the concatenated bounds)
+    okn = False
+    if nh is not None:
+        if pmatch(nh, "len(self.hp_bounds)") is not None:
+            okn = L.state.get("self.hp_bounds") == (("splice", "self.mean.bounds"), ("splice", "self.cov.bounds"))
+        else:
+            try:
+                from ..term import abstract
+                ab, _ = abstract(nh, [("self.mean.n_params", "NM"), ("self.cov.n_params", "NC")])
+                okn = anf_of(ab).eq(R.sym("NM") + R.sym("NC"))
+            except Unsupported:
+                okn = False
+    if not okn:
+        why.append(f"n_hyperpars is `{U(nh) if nh is not None else None}`, not the number of mean plus covariance parameters")
+    lab = L.state.get("self.hyperpar_labels")
+    if lab != (("splice", "self.mean.hyperpar_labels"), ("splice", "self.cov.hyperpar_labels")):
+        why.append(f"labels are {show(lab)}, not the mean's labels followed by the covariance's")
+    cb, bf = prog.method(cname, bounds_fn_name)
+    Lb = L if bf is init else Layouts(bf, prog, cb.module, cb)
+    b = Lb.state.get(bounds_key)
+    if b != (("splice", "self.mean.bounds"), ("splice", "self.cov.bounds")):
+        why.append(f"bounds `{bounds_key}` in {bounds_fn_name} are {show(b)}, not the mean's bounds followed by the covariance's")
+    return ci, init, why
+
+
+def gradient_scatter(prog, cname, mname, out_name="grad"):
+    """Problems with `grad[self.cov_slice] = ...` / `grad[self.mean_slice] = ...`: each slice must receive values computed
+    from the gradient list of its own component, itself evaluated on that component's slice of theta."""
+    from ..term import Resolver
+    from ..seq import Layouts, UNKNOWN
+    ci, fn = prog.method(cname, mname)
+    L = Layouts(fn, prog, ci.module, ci)
+    rz = L.rz
+    th = fn.args.args[1].arg
+    tags = {"cov": f"self.cov.covariance_and_gradients({th}[self.cov_slice])[1]",
+            "mean": f"self.mean.mean_and_gradients({th}[self.mean_slice])[1]"}
+    why = []
+    seen = set()
+    for st in ast.walk(fn):
+        if isinstance(st, ast.Assign) and isinstance(st.targets[0], ast.Subscript) and U(st.targets[0].value) == out_name:
+            sl = U(st.targets[0].slice)
+            which = "cov" if sl == "self.cov_slice" else "mean" if sl == "self.mean_slice" else None
+            if which is None:
+                why.append(f"`{U(st.targets[0])}` is not one of the two component slices")
+                continue
+            seen.add(which)
+            text = str(U(rz.term(st.value, st)))
+            for n in ast.walk(st.value):
+                if isinstance(n, ast.Name) and n.id in L.state:
+                    text += " " + repr(L.state[n.id])
+            other = "mean" if which == "cov" else "cov"
+            if tags[which] not in text:
+                why.append(f"`{U(st.targets[0])}` does not receive values computed from {tags[which]}")
+            if tags[other] in text:
+                why.append(f"`{U(st.targets[0])}` receives values computed from the other component's gradient list")
+    if seen != {"cov", "mean"}:
+        why.append(f"slices written: {sorted(seen)}")
+    return ci, fn, why
